@@ -2,6 +2,7 @@
 C01, second round trip with SparseDicts — (a) on a stable state `prS` is invisible level by level.
 -/
 import Proofs.Lemmas.C01SparseSecondStable
+import Proofs.Lemmas.C01SparseSecondOk
 namespace Flatland.Flat.Proofs
 open Flatland.Flat Flatland.Flat.Spec
 
@@ -24,17 +25,89 @@ theorem okS_member_lookup {fields : List Schema} (hnd : (namesOf fields).Nodup)
   subst h2
   exact hgo
 
-theorem lvl_prS : ∀ s : Schema, wf s = true → compoundFree s = true →
+/-! ### a Compound's own text -/
+
+/-- level-equal states show the same text -/
+theorem uOf_of_lvlEq (s : Schema) (a b : Elem) (h : LvlEq (resolve env s a) (resolve env s b)) :
+    uOf env s a = uOf env s b := by
+  have h0 := h 0
+  cases s with
+  | leaf nm o k =>
+    unfold resolve at h0
+    rw [lvl_zero_mk, lvl_zero_mk] at h0
+    simp only [if_true, List.cons.injEq, Prod.mk.injEq, true_and, and_true] at h0
+    cases a <;> cases b <;> simp_all [uOf]
+  | joined nm o k mem =>
+    unfold resolve at h0
+    rw [lvl_zero_mk, lvl_zero_mk] at h0
+    simp only [if_true, List.cons.injEq, Prod.mk.injEq, true_and, and_true] at h0
+    cases a <;> cases b <;> simp_all [uOf]
+  | compound nm o k fields =>
+    unfold resolve at h0
+    rw [lvl_zero_mk, lvl_zero_mk] at h0
+    simpa using h0
+  | dict nm o mode fields => cases a <;> cases b <;> simp [uOf]
+  | list nm o p mx member => cases a <;> cases b <;> simp [uOf]
+  | array nm o p member => cases a <;> cases b <;> simp [uOf]
+
+theorem usOf_congr (env : Env) : ∀ (fs : List Schema) (ms ms' : List (Str × Elem)),
+    (∀ f ∈ fs, ∃ e e', lookup (f.name.getD []) ms = some e ∧ lookup (f.name.getD []) ms' = some e' ∧
+      uOf env f e = uOf env f e') → usOf env fs ms = usOf env fs ms'
+  | [], _, _, _ => by simp [usOf]
+  | f :: fs, ms, ms', h => by
+    obtain ⟨e, e', h1, h2, h3⟩ := h f (by simp)
+    simp only [usOf, h1, h2, h3,
+      usOf_congr env fs ms ms' (fun g hg => h g (List.mem_cons_of_mem _ hg))]
+
+theorem pickKeys_all (keys : List (Str × Str)) : ∀ fs : List Schema,
+    pickKeys (fun _ => true) keys true fs = fs.map (fun f => f.name.getD []) ∧
+    pickKeys (fun _ => true) keys false fs = []
+  | [] => ⟨rfl, rfl⟩
+  | f :: fs => by
+    have ih := pickKeys_all keys fs
+    simp [pickKeys, ih.1, ih.2]
+
+theorem mem_pick_of_req (req : Schema → Bool) (keys : List (Str × Str)) (V : Schema → Elem) :
+    ∀ (fs : List Schema) (f : Schema), f ∈ fs → req f = true →
+      (f.name.getD [], if touched keys f then V f else blank f) ∈ pickV req keys V true fs
+  | [], f, hf, _ => by simp at hf
+  | g :: gs, f, hf, hr => by
+    rcases List.mem_cons.mp hf with rfl | hf
+    · simp [pickV, hr]
+    · have ih := mem_pick_of_req req keys V gs f hf hr
+      simp only [pickV, if_true]
+      split
+      · exact List.mem_cons_of_mem _ ih
+      · exact ih
+
+/-- the member a rebuilt mapping holds under a minimum field -/
+theorem lookup_pick_req (fields : List Schema) (hnd : (namesOf fields).Nodup)
+    (hsome : ∀ g ∈ fields, g.name.isSome) (req : Schema → Bool) (keys : List (Str × Str))
+    (V : Schema → Elem) (f : Schema) (hf : f ∈ fields) (hr : req f = true) :
+    lookup (f.name.getD []) (pickV req keys V true fields ++ pickV req keys V false fields)
+      = some (if touched keys f then V f else blank f) :=
+  lookup_of_mem_nodup (pick_keys_nodup fields hnd hsome req keys V)
+    (List.mem_append_left _ (mem_pick_of_req req keys V fields f hf hr))
+
+/-- the key list of a full Compound state: every field has its member -/
+theorem lookup_of_keys_full {fields : List Schema} {ms : List (Str × Elem)}
+    (hkeys : (ms.map (·.1)).Nodup)
+    (hfull : ∀ f ∈ fields, f.name.getD [] ∈ ms.map (·.1)) (f : Schema) (hf : f ∈ fields) :
+    ∃ e, lookup (f.name.getD []) ms = some e := by
+  obtain ⟨p, hp, hk⟩ := List.mem_map.mp (hfull f hf)
+  exact ⟨p.2, lookup_of_mem_nodup hkeys (by rw [← hk]; exact hp)⟩
+
+theorem lvl_prS : ∀ s : Schema, wf s = true →
     ∀ (u : Bool) (e : Elem), OkS env s e → StableS env sep u s e →
       LvlEq (resolve env s (prS env sep u s e)) (resolve env s e) := by
   intro s
   induction s using schema_ind with
   | hleaf nm o k =>
-    intro _ _ u e _ _
+    intro _ u e _ _
     rw [prS, pr]
     exact LvlEq.refl _
   | hjoined nm o k mem =>
-    intro _ _ u e hok _
+    intro _ u e hok _
     cases e with
     | joined t ms =>
       simp only [prS, pr]
@@ -47,29 +120,69 @@ theorem lvl_prS : ∀ s : Schema, wf s = true → compoundFree s = true →
         exact lvlEq_nocfl _ _ _ _ _ _ _
     | _ => simp [OkS, OkP] at hok
   | hdict nm o mode fields ih =>
-    intro hw hcf u e hok hst
+    intro hw u e hok hst
     cases e with
     | dict ms =>
       simp only [wf, Bool.and_eq_true] at hw
       have hnd : (namesOf fields).Nodup := by simpa using hw.2
       have hsome := allSome_of fields hw.1.2
-      simp only [compoundFree] at hcf
       simp only [OkS] at hok
       simp only [StableS] at hst
       simp only [prS]
       rw [prSPick_eq, prSPick_eq, resolve_dictS, resolve_dictS]
-      exact lvlEq_mapping nm u (isReq mode) fields hnd hsome ms hok.1 _ hst.1 hst.2
-        (fun f hf e hl hs => ih f hf (wf_of_mem hw.1.1 f hf) (compoundFree_of_mem hcf f hf) u e
+      exact lvlEq_mapping nm false [] u (isReq mode) fields hnd hsome ms hok.1 _ hst.1 hst.2
+        (fun f hf e hl hs => ih f hf (wf_of_mem hw.1.1 f hf) u e
           (okS_member_lookup hnd hok.2 hf (hsome f hf) hl) hs)
     | _ => simp [OkS] at hok
   | hcompound nm o k fields ih =>
-    intro _ hcf
-    simp [compoundFree] at hcf
+    intro hw u e hok hst
+    cases e with
+    | dict ms =>
+      simp only [wf, Bool.and_eq_true] at hw
+      have hnd : (namesOf fields).Nodup := by simpa using hw.2
+      have hsome := allSome_of fields hw.1.2
+      simp only [OkS] at hok
+      simp only [StableS] at hst
+      have hih : ∀ f ∈ fields, ∀ e, lookup (f.name.getD []) ms = some e → StableS env sep u f e →
+          LvlEq (resolve env f (prS env sep u f e)) (resolve env f e) :=
+        fun f hf e hl hs => ih f hf (wf_of_mem hw.1.1 f hf) u e
+          (okS_member_lookup hnd hok.2 hf (hsome f hf) hl) hs
+      -- a stable Compound state holds all its fields
+      have hfull : ∀ f ∈ fields, f.name.getD [] ∈ ms.map (·.1) := by
+        intro f hf
+        have h1 := hst.1
+        rw [(pickKeys_all _ fields).1, (pickKeys_all _ fields).2, List.append_nil] at h1
+        have : f.name.getD [] ∈ fields.map (fun f => f.name.getD []) := List.mem_map.mpr ⟨f, hf, rfl⟩
+        rw [← h1] at this
+        obtain ⟨p, hp, hk⟩ := List.mem_map.mp this
+        exact List.mem_map.mpr ⟨p, (List.mem_filter.mp hp).1, hk⟩
+      simp only [prS]
+      rw [prSPick_eq, prSPick_eq, resolve_compoundS, resolve_compoundS]
+      have hu : usOf env fields
+          (pickV (fun _ => true) (innerPairs env sep u fields ms) (valS env sep u ms) true fields
+            ++ pickV (fun _ => true) (innerPairs env sep u fields ms) (valS env sep u ms) false fields)
+          = usOf env fields ms := by
+        apply usOf_congr
+        intro f hf
+        obtain ⟨e, hl⟩ := lookup_of_keys_full hok.1 hfull f hf
+        refine ⟨_, e, lookup_pick_req fields hnd hsome _ _ _ f hf rfl, hl, ?_⟩
+        have hst' := stableSFields_get hst.2 f hf e hl
+        cases ht : touched (innerPairs env sep u fields ms) f with
+        | true =>
+          simp only [if_true, valS, hl]
+          exact uOf_of_lvlEq f _ _ (hih f hf e hl (hst'.1 ht))
+        | false =>
+          simp only [Bool.false_eq_true, if_false]
+          have := hst'.2 ht
+          simp only [if_true] at this
+          exact (uOf_of_lvlEq f _ _ this).symm
+      rw [hu]
+      exact lvlEq_mapping nm true _ u (fun _ => true) fields hnd hsome ms hok.1 _ hst.1 hst.2 hih
+    | _ => simp [OkS] at hok
   | hlist nm o p mx member ih =>
-    intro hw hcf u e hok hst
+    intro hw u e hok hst
     simp only [wf] at hw
-    simp only [compoundFree] at hcf
-    have ih := ih hw hcf
+    have ih := ih hw
     cases e with
     | list ms =>
       simp only [OkS] at hok
@@ -117,7 +230,7 @@ theorem lvl_prS : ∀ s : Schema, wf s = true → compoundFree s = true →
           exact ((hmems m hm').2 hem).symm
     | _ => simp [OkS] at hok
   | harray nm o p member ih =>
-    intro _ _ u e hok hst
+    intro _ u e hok hst
     cases e with
     | array ms =>
       simp only [StableS] at hst
@@ -128,9 +241,9 @@ theorem lvl_prS : ∀ s : Schema, wf s = true → compoundFree s = true →
 
 /-- on a stable state `prS` does not change the flattened output -/
 theorem flatten_prS_of_stable (env : Env) (sep sep' : Str) (s : Schema) (u : Bool) (e : Elem)
-    (hw : wf s = true) (hcf : compoundFree s = true) (hok : OkS env s e)
+    (hw : wf s = true) (hok : OkS env s e)
     (hst : StableS env sep u s e) :
     flatten env sep' s (prS env sep u s e) = flatten env sep' s e := by
-  rw [flatten_eq_relFlat, flatten_eq_relFlat, relFlat_of_lvlEq (lvl_prS s hw hcf u e hok hst)]
+  rw [flatten_eq_relFlat, flatten_eq_relFlat, relFlat_of_lvlEq (lvl_prS s hw u e hok hst)]
 
 end Flatland.Flat.Proofs
